@@ -39,6 +39,8 @@ def gen_cases(rng, feat, n, big):
         mode = "S" if rng.chance(2, 3) else "B"
         nt = 1 if mode == "B" or rng.chance(4, 5) else 2
         out.append(G.gen_scenario(rng, feat, mode, nt, big=big and rng.chance(1, 3)).line())
+    for _ in range(max(20, n // 25)):
+        out.append(G.gen_yield_delivery(rng, feat).line())
     return out
 
 
